@@ -7,6 +7,7 @@ import (
 	"reflect"
 	"sort"
 	"strings"
+	"sync/atomic"
 	"testing"
 	"time"
 
@@ -377,6 +378,62 @@ func TestC20(t *testing.T) {
 	if _, ok := reflect.TypeOf(coordinate.Client{}).FieldByName("latencyFilterSamples"); !ok {
 		r.Inconclusive("coordinate.Client has no field latencyFilterSamples any more: the latency filter is not observable")
 	}
+
+	// ---------------- part 0: readers while updates are in progress
+	// serf reads the local coordinate from other goroutines than the one applying ping
+	// observations (GetCoordinate, ping acks, the cache of the node's own entry): whatever moment
+	// they look, the coordinate must be valid - also half way through an update that will be reset.
+	r.Cases("concurrent", r.N(8, 200), 4, func(ci int, rng *rand.Rand) {
+		cfg := coordinate.DefaultConfig()
+		cl, err := coordinate.NewClient(cfg)
+		if err != nil {
+			r.Inconclusive("NewClient: " + err.Error())
+			return
+		}
+		var stop atomic.Bool
+		var bad atomic.Value
+		var reads atomic.Int64
+		g := newBGroup()
+		for w := 0; w < 4; w++ {
+			g.Go(func() {
+				for !stop.Load() {
+					c := cl.GetCoordinate()
+					reads.Add(1)
+					if msg := c20Invariants(c, int(cfg.Dimensionality), cfg.HeightMin, cfg.VivaldiErrorMax, false); msg != "" {
+						bad.CompareAndSwap(nil, msg+" : "+c20CoordStr(c))
+					}
+				}
+			})
+		}
+		updates := 20000
+		for i := 0; i < updates && bad.Load() == nil; i++ {
+			peer := coordinate.NewCoordinate(cfg)
+			switch rng.Intn(4) {
+			case 0: // finite but huge: accepted, blows the intermediate result up, reset at the end
+				peer.Height = []float64{1e308, 1.2e308, 1e300}[rng.Intn(3)]
+				if rng.Intn(2) == 0 {
+					peer.Error = 1e300
+				}
+			case 1:
+				peer.Vec[rng.Intn(len(peer.Vec))] = []float64{1e308, -1e308, 1e200}[rng.Intn(3)]
+			default:
+				for k := range peer.Vec {
+					peer.Vec[k] = rng.NormFloat64() * 0.05
+				}
+				peer.Height = 0.001 + rng.Float64()*0.01
+			}
+			_, _ = cl.Update(fmt.Sprintf("peer%d", rng.Intn(5)), peer, time.Duration(1+rng.Intn(200))*time.Millisecond)
+		}
+		stop.Store(true)
+		g.Wait()
+		r.Eval(1)
+		r.Count("concurrent_updates", updates)
+		r.Count("concurrent_reads", int(reads.Load()))
+		r.Count("concurrent_resets", cl.Stats().Resets)
+		if m := bad.Load(); m != nil {
+			r.Violation("invalid-coordinate-seen-during-update", ci, "a reader calling GetCoordinate while observations (some finite but huge) were being applied saw an invalid coordinate: "+m.(string), m)
+		}
+	})
 
 	// ---------------- part A: coordinate.Client sequences
 	nSeq := r.N(2000, 100000)
